@@ -416,6 +416,11 @@ impl FileSystemState {
             ents_written(ops@, artifact_directory@, state.nested_files@), //@O C18.O-2d_recreate_all_writes_every_nested_file
             // every write finds its parent directory: created after the wipe, before the write
             parents_created(ops@), //@O C18+C19.O-2e_recreate_all_creates_parent_directory_before_each_write
+            // hence (lemma_recreate_all_correct, over the transcribed std::fs semantics): applied
+            // to ANY directory, the plan succeeds and leaves exactly the files of the state
+            forall|dir0: Dir| (#[trigger] apply_all(dir0, ops@, ops@.len() as int)) is Some
+                && forall|p: Seq<int>| is_prefix(artifact_directory@, p) ==>
+                    #[trigger] (apply_all(dir0, ops@, ops@.len() as int)->Some_0.files)(p) == state.file_at(artifact_directory@, p), //@O C18+C19.O-2_from_scratch_plan_turns_any_directory_into_the_state
 //@after "operations.push(FileSystemOperation::DeleteDirectory("
         proof {
             assert(at(operations@, 0) == OpV::DeleteDirectory(artifact_directory@));
@@ -533,6 +538,14 @@ impl FileSystemState {
                 lemma_push_plan(old_ops4, pushed, state, artifact_directory@, true);
                 lemma_push_emits(old_ops4, pushed, opv(pushed));
             }
+//@atend
+        proof {
+            assert forall|dir0: Dir| (#[trigger] apply_all(dir0, operations@, operations@.len() as int)) is Some
+                && forall|p: Seq<int>| is_prefix(artifact_directory@, p) ==>
+                    #[trigger] (apply_all(dir0, operations@, operations@.len() as int)->Some_0.files)(p) == state.file_at(artifact_directory@, p) by {
+                lemma_recreate_all_correct(dir0, operations@, state, artifact_directory@);
+            }
+        }
 //@end
 
 //@fn rel=crates/artifact_content/src/file_system_state.rs name=diff within="impl FileSystemState" vis=pub ret=ops serves=C18
@@ -1145,6 +1158,206 @@ pub proof fn lemma_plan_indices_from_diff(ops: Seq<FileSystemOperation>, o: &Fil
         }
     }
 //@end
+
+// =====================================================================================
+// From plan properties to the directory: a hand-written semantics of the four operations
+// (transcribed from apply_file_system_operations' std::fs calls: remove_dir_all guarded by
+// exists, create_dir_all, write, remove_file) and lemmas showing that a plan with the
+// properties proved above, applied op by op, turns the directory into exactly the state.
+// The semantics is a SPECIFICATION (trusted transcription); the lemmas are about contracts.
+// =====================================================================================
+pub struct Dir {
+    /// content index of the file at a path, if there is one
+    pub files: spec_fn(Seq<int>) -> Option<usize>,
+    /// directories that exist
+    pub dirs: spec_fn(Seq<int>) -> bool,
+}
+pub open spec fn is_prefix(a: Seq<int>, b: Seq<int>) -> bool {
+    a.len() <= b.len() && b.subrange(0, a.len() as int) == a
+}
+/// effect of one operation; None = the std::fs call fails
+pub open spec fn apply_op(dir: Dir, x: OpV) -> Option<Dir> {
+    match x {
+        OpV::DeleteDirectory(q) => Some(Dir {
+            files: |p: Seq<int>| if is_prefix(q, p) { None } else { (dir.files)(p) },
+            dirs: |p: Seq<int>| (dir.dirs)(p) && !is_prefix(q, p),
+        }),
+        OpV::CreateDirectory(q) => Some(Dir {
+            files: dir.files,
+            dirs: |p: Seq<int>| (dir.dirs)(p) || is_prefix(p, q),
+        }),
+        OpV::WriteFile(p0, idx) =>
+            if p0.len() > 0 && (dir.dirs)(p0.drop_last()) {
+                Some(Dir { files: |p: Seq<int>| if p == p0 { Some(idx) } else { (dir.files)(p) }, dirs: dir.dirs })
+            } else { None },
+        OpV::DeleteFile(p0) =>
+            if (dir.files)(p0) is Some {
+                Some(Dir { files: |p: Seq<int>| if p == p0 { None } else { (dir.files)(p) }, dirs: dir.dirs })
+            } else { None },
+    }
+}
+/// the first k operations applied in order
+pub open spec fn apply_all(dir: Dir, ops: Seq<FileSystemOperation>, k: int) -> Option<Dir>
+    decreases k
+{
+    if k <= 0 { Some(dir) } else {
+        match apply_all(dir, ops, k - 1) {
+            Some(d1) => apply_op(d1, at(ops, k - 1)),
+            None => None,
+        }
+    }
+}
+impl FileSystemState {
+    /// the directory content this state stands for, below artifact directory `d`
+    pub open spec fn file_at(&self, d: Seq<int>, p: Seq<int>) -> Option<usize> {
+        if p.len() == d.len() + 1 && is_prefix(d, p) && self.has_root(p.last() as u64) && 0 <= p.last() <= u64::MAX {
+            Some(self.root_idx(p.last() as u64))
+        } else if p.len() == d.len() + 3 && is_prefix(d, p)
+            && 0 <= p[d.len() as int] <= u64::MAX && 0 <= p[(d.len() + 1) as int] <= u64::MAX && 0 <= p[(d.len() + 2) as int] <= u64::MAX
+            && self.has_nested(p[d.len() as int] as u64, p[(d.len() + 1) as int] as u64, p[(d.len() + 2) as int] as u64) {
+            Some(self.nested_idx(p[d.len() as int] as u64, p[(d.len() + 1) as int] as u64, p[(d.len() + 2) as int] as u64))
+        } else { None }
+    }
+}
+
+pub proof fn lemma_paths(d: Seq<int>, e: u64, s: u64, f: u64)
+    ensures
+        root_path(d, f).len() == d.len() + 1, is_prefix(d, root_path(d, f)), root_path(d, f).last() == f as int,
+        root_path(d, f).drop_last() == d,
+        nested_path(d, e, s, f).len() == d.len() + 3, is_prefix(d, nested_path(d, e, s, f)),
+        nested_path(d, e, s, f)[d.len() as int] == e as int, nested_path(d, e, s, f)[(d.len() + 1) as int] == s as int,
+        nested_path(d, e, s, f)[(d.len() + 2) as int] == f as int,
+        nested_path(d, e, s, f).drop_last() == sel_dir(d, e, s),
+        is_prefix(d, sel_dir(d, e, s)), is_prefix(d, d),
+{
+    assert(root_path(d, f).subrange(0, d.len() as int) =~= d);
+    assert(root_path(d, f).drop_last() =~= d);
+    assert(nested_path(d, e, s, f).subrange(0, d.len() as int) =~= d);
+    assert(nested_path(d, e, s, f).drop_last() =~= sel_dir(d, e, s));
+    assert(sel_dir(d, e, s).subrange(0, d.len() as int) =~= d);
+    assert(d.subrange(0, d.len() as int) =~= d);
+}
+
+/// some WriteFile to path p among operations 1..k
+pub open spec fn written(ops: Seq<FileSystemOperation>, k: int, p: Seq<int>) -> bool {
+    exists|i: int| 0 < i < k && i < ops.len() && (#[trigger] at(ops, i)) is WriteFile && at(ops, i)->WriteFile_0 == p
+}
+/// a from-scratch plan writes to a path exactly the content the state has there
+pub proof fn lemma_write_determines(ops: Seq<FileSystemOperation>, st: &FileSystemState, d: Seq<int>, i: int)
+    requires writes_sound(ops, st, d, true), 0 <= i < ops.len(), at(ops, i) is WriteFile,
+    ensures
+        st.file_at(d, at(ops, i)->WriteFile_0) == Some(at(ops, i)->WriteFile_1),
+        at(ops, i)->WriteFile_0.len() > 0,
+{
+    if exists|f: u64| st.has_root(f) && at(ops, i) == OpV::WriteFile(root_path(d, f), st.root_idx(f)) {
+        let f = choose|f: u64| st.has_root(f) && at(ops, i) == OpV::WriteFile(root_path(d, f), st.root_idx(f));
+        lemma_paths(d, 0, 0, f);
+    } else {
+        let (e, s, f) = choose|e: u64, s: u64, f: u64| st.has_nested(e, s, f) && at(ops, i) == OpV::WriteFile(nested_path(d, e, s, f), st.nested_idx(e, s, f));
+        lemma_paths(d, e, s, f);
+    }
+}
+/// state of the directory after the first k >= 1 operations of a from-scratch plan
+pub open spec fn scratch_inv(dk: Dir, ops: Seq<FileSystemOperation>, k: int, st: &FileSystemState, d: Seq<int>) -> bool {
+    // below d there is exactly what the plan has written so far, with the state's content
+    &&& forall|p: Seq<int>| is_prefix(d, p) ==>
+            #[trigger] (dk.files)(p) == (if written(ops, k, p) { st.file_at(d, p) } else { None::<usize> })
+    // every directory the plan created exists
+    &&& forall|j: int| 0 < j < k && (#[trigger] at(ops, j)) is CreateDirectory ==> (dk.dirs)(at(ops, j)->CreateDirectory_0)
+}
+pub proof fn lemma_scratch(dir0: Dir, ops: Seq<FileSystemOperation>, st: &FileSystemState, d: Seq<int>, k: int)
+    requires
+        wipes_first(ops, d), writes_sound(ops, st, d, true), parents_created(ops),
+        1 <= k <= ops.len(),
+    ensures
+        apply_all(dir0, ops, k) is Some,
+        scratch_inv(apply_all(dir0, ops, k)->Some_0, ops, k, st, d),
+    decreases k
+{
+    if k == 1 {
+        assert(apply_all(dir0, ops, 0) == Some(dir0));
+        let d1 = apply_all(dir0, ops, 1)->Some_0;
+        assert forall|p: Seq<int>| is_prefix(d, p) implies #[trigger] (d1.files)(p) == (if written(ops, 1, p) { st.file_at(d, p) } else { None::<usize> }) by {
+            assert(!written(ops, 1, p));
+        }
+    } else {
+        lemma_scratch(dir0, ops, st, d, k - 1);
+        let dk = apply_all(dir0, ops, k - 1)->Some_0;
+        let x = at(ops, k - 1);
+        assert(x is WriteFile || x is CreateDirectory);
+        if x is CreateDirectory {
+            let q = x->CreateDirectory_0;
+            let dn = apply_op(dk, x)->Some_0;
+            assert(is_prefix(q, q)) by { assert(q.subrange(0, q.len() as int) =~= q); }
+            assert forall|p: Seq<int>| is_prefix(d, p) implies #[trigger] (dn.files)(p) == (if written(ops, k, p) { st.file_at(d, p) } else { None::<usize> }) by {
+                assert(written(ops, k, p) == written(ops, k - 1, p)) by {
+                    if written(ops, k, p) {
+                        let i = choose|i: int| 0 < i < k && i < ops.len() && (#[trigger] at(ops, i)) is WriteFile && at(ops, i)->WriteFile_0 == p;
+                        assert(i != k - 1);
+                    }
+                }
+            }
+        } else {
+            let p0 = x->WriteFile_0; let idx = x->WriteFile_1;
+            lemma_write_determines(ops, st, d, k - 1);
+            // the parent directory was created earlier
+            let j = choose|j: int| 0 < j < k - 1 && j < ops.len() && #[trigger] at(ops, j) == OpV::CreateDirectory(p0.drop_last());
+            assert((dk.dirs)(p0.drop_last()));
+            let dn = apply_op(dk, x)->Some_0;
+            assert forall|p: Seq<int>| is_prefix(d, p) implies #[trigger] (dn.files)(p) == (if written(ops, k, p) { st.file_at(d, p) } else { None::<usize> }) by {
+                if p == p0 {
+                    assert(written(ops, k, p));
+                } else {
+                    assert(written(ops, k, p) == written(ops, k - 1, p)) by {
+                        if written(ops, k, p) {
+                            let i = choose|i: int| 0 < i < k && i < ops.len() && (#[trigger] at(ops, i)) is WriteFile && at(ops, i)->WriteFile_0 == p;
+                            assert(i != k - 1);
+                        }
+                    }
+                }
+            }
+        }
+    }
+}
+/// C18, first compile / C19, repair: the from-scratch plan applied to ANY directory succeeds
+/// and leaves, below the artifact directory, exactly the files of the state
+pub proof fn lemma_recreate_all_correct(dir0: Dir, ops: Seq<FileSystemOperation>, st: &FileSystemState, d: Seq<int>)
+    requires
+        wipes_first(ops, d), writes_sound(ops, st, d, true), parents_created(ops),
+        roots_written(ops, d, st.root_files@), ents_written(ops, d, st.nested_files@),
+    ensures
+        apply_all(dir0, ops, ops.len() as int) is Some,
+        forall|p: Seq<int>| is_prefix(d, p) ==> #[trigger] (apply_all(dir0, ops, ops.len() as int)->Some_0.files)(p) == st.file_at(d, p),
+{
+    let n = ops.len() as int;
+    lemma_scratch(dir0, ops, st, d, n);
+    let dn = apply_all(dir0, ops, n)->Some_0;
+    assert forall|p: Seq<int>| is_prefix(d, p) implies #[trigger] (dn.files)(p) == st.file_at(d, p) by {
+        if st.file_at(d, p) is Some && !written(ops, n, p) {
+            // completeness: the plan writes every file of the state
+            if p.len() == d.len() + 1 {
+                let f = p.last() as u64;
+                lemma_paths(d, 0, 0, f);
+                assert(root_path(d, f) =~= p);
+                assert(emits(ops, OpV::WriteFile(root_path(d, f), st.root_files@[f].0.idx)));
+                let i = choose|i: int| 0 <= i < ops.len() && #[trigger] at(ops, i) == OpV::WriteFile(root_path(d, f), st.root_files@[f].0.idx);
+                assert(i != 0);
+                assert(written(ops, n, p));
+            } else {
+                let e = p[d.len() as int] as u64; let s = p[(d.len() + 1) as int] as u64; let f = p[(d.len() + 2) as int] as u64;
+                lemma_paths(d, e, s, f);
+                assert(nested_path(d, e, s, f) =~= p);
+                assert(st.nested_files@.contains_key(e));
+                assert(sels_written(ops, d, e, st.nested_files@[e]@));
+                assert(files_written(ops, d, e, s, st.nested_files@[e]@[s]@));
+                assert(file_written(ops, d, e, s, f, st.nested_files@[e]@[s]@[f]));
+                let i = choose|i: int| 0 <= i < ops.len() && #[trigger] at(ops, i) == OpV::WriteFile(nested_path(d, e, s, f), st.nested_files@[e]@[s]@[f].0.idx);
+                assert(i != 0);
+                assert(written(ops, n, p));
+            }
+        }
+    }
+}
 
 } // verus!
 fn main() {}
